@@ -673,6 +673,7 @@ func famC05(r *Run) {
 	famSourceFunctionNames(r)
 	famLoneMinus(r)
 	famToNumber(r)
+	famArrayPrefixEq(r)
 }
 
 // ---- C06: input never modified (the generic oracle does the work) ----
@@ -703,6 +704,7 @@ func famC06(r *Run) {
 	famJSONNumberDocs(r)
 	famNullHoles(r)
 	famDocWrites(r)
+	famTypedSliceSort(r)
 }
 
 // ---- C07: truth, logic, comparators ----
@@ -766,6 +768,7 @@ func famC07(r *Run) {
 	famNotComparisons(r)
 	famObjectEquality(r)
 	famFilterMixed(r)
+	famArrayPrefixEq(r)
 }
 
 // ---- C08: slices ----
@@ -935,6 +938,7 @@ func famC09(r *Run) {
 	famObjectEquality(r)
 	famNonFinite(r)
 	famDocWrites(r)
+	famArrayPrefixEq(r)
 }
 
 // ---- C10: ill-typed calls ----
@@ -1089,6 +1093,7 @@ func famC16(r *Run) {
 	r.treeCases("G-expr-all", r.n(2000, 30000), Features{Proj: true, Logic: true, Funcs: true, Paren: true}, 5)
 	famC09(r)
 	famCallSequences(r)
+	famSourceFunctionNames(r)
 }
 
 // ---- C17: Compile's contract ----
@@ -1132,6 +1137,7 @@ func famC17(r *Run) {
 	famMustCompileText(r)
 	famBadUTF8Offsets(r)
 	famBadQuoted(r)
+	famUnicodeSpaceEnds(r)
 }
 
 func (r *Run) contractC17(family, expr string) {
